@@ -41,6 +41,8 @@ def _elem_dtype(x) -> np.dtype:
         return _INT
     if isinstance(x, SVal):
         return _FLOAT if x.is_real() else _CPLX
+    if type(x).__name__ == "CInf":
+        return _CPLX
     if isinstance(x, (bool, np.bool_)):
         return _BOOL
     if isinstance(x, (int, np.integer)):
@@ -54,6 +56,8 @@ def _elem_dtype(x) -> np.dtype:
 
 def _cast(x, dt: np.dtype):
     """cast one element to dtype dt (concrete -> numpy scalar; symbolic stays symbolic)"""
+    if type(x).__name__ == "CInf":
+        return x
     if is_symbolic(x):
         if dt == _BOOL:
             if isinstance(x, SBool):
@@ -414,6 +418,8 @@ def _np_scalar(x):
 
 def _num(x):
     """prepare one operand for symbolic arithmetic"""
+    if type(x).__name__ == "CInf":
+        return x
     if isinstance(x, SVal):
         return x.with_npy(True)
     if isinstance(x, (SInt, SBool)):
@@ -893,11 +899,16 @@ def _false(_):
     return np.bool_(False)
 
 
-isinf = _ufunc1(np.isinf, _false, _BOOL)
+def _is_cinf(v):
+    from .values import CInf
+    return np.bool_(isinstance(v, CInf))
+
+
+isinf = _ufunc1(np.isinf, _is_cinf, _BOOL)
 isnan = _ufunc1(np.isnan, _false, _BOOL)
 isposinf = _ufunc1(np.isposinf, _false, _BOOL)
 isneginf = _ufunc1(np.isneginf, _false, _BOOL)
-isfinite = _ufunc1(np.isfinite, lambda _: np.bool_(True), _BOOL)
+isfinite = _ufunc1(np.isfinite, lambda v: np.bool_(not _is_cinf(v)), _BOOL)
 real = _ufunc1(np.real, _real)
 imag = _ufunc1(np.imag, _imag)
 conj = _ufunc1(np.conj, lambda v: v.conjugate() if isinstance(v, SVal) else v)
